@@ -9,6 +9,7 @@ assist/location return well-formed values or raise SyntaxError only when the cur
 Failures are bucketed by (entry point, exception class, innermost supp function).
 """
 import ast
+import json
 import os
 import random
 import signal
@@ -519,6 +520,79 @@ def w_cyclic(job):
     return sh.result()
 
 
+def hier_requests(h):
+    """completion / definition requests on every class of a C06 hierarchy, from a probe buffer and from inside the class' file"""
+    from . import c06
+    files = c06.render(h)
+    reqs = []
+    for ci, c in enumerate(h['classes']):
+        mod = c06.MODS[c['mod']]
+        imp, cexpr = c06.ref_from(None, mod, c['name'], h['probe_forms'][ci])
+        attr = c['members'][0]['name']
+        for expr in (cexpr, cexpr + '()'):
+            src = imp + '\n' + expr + '.'
+            reqs.append(('assist', src, (2, len(expr) + 1), 'probe.py'))
+            src = imp + '\n' + expr + '.' + attr
+            reqs.append(('location', src, (2, len(expr) + 1 + len(attr)), 'probe.py'))
+        rel = mod.replace('.', '/') + '.py'
+        lines = files[rel].split('\n')
+        idx = [i for i, l in enumerate(lines) if l == '        self.zz_probe']
+        order = [k for k, cc in enumerate(h['classes']) if cc['mod'] == c['mod']]
+        li = idx[order.index(ci)]
+        l2 = list(lines)
+        l2[li] = '        self.'
+        reqs.append(('assist', '\n'.join(l2), (li + 1, 13), rel))
+    return files, reqs
+
+
+def run_hier(h, order, sh=None):
+    """all requests in the given order on ONE long-lived project (what the server keeps between requests) -> problems"""
+    import shutil
+    import tempfile
+    from supp.project import Project
+    files, reqs = hier_requests(h)
+    root = tempfile.mkdtemp(prefix='c08h_')
+    out = []
+    try:
+        for rel, src in files.items():
+            path = os.path.join(root, rel)
+            os.makedirs(os.path.dirname(path), exist_ok=True)
+            with open(path, 'w') as f:
+                f.write(src)
+        project = Project([root])
+        seq = [reqs[i % len(reqs)] for i in order]
+        for k, (which, src, pos, rel) in enumerate(seq):
+            prob, cls = check_cursor(project, which, src, pos, os.path.join(root, rel))
+            if sh is not None:
+                sh.count('%s:%s' % (which, cls))
+            if prob:
+                out.append((prob[0].replace(root, '<root>'), 'request %d of %d (%s at %s in %s): %s' % (k + 1, len(seq), which, pos, rel, prob[1].replace(root, '<root>'))))
+                break
+    finally:
+        shutil.rmtree(root, ignore_errors=True)
+    return out
+
+
+def w_hier(job):
+    """C06 hierarchies spread over several project modules, a generated ORDER of requests on one long-lived project"""
+    from hypothesis import strategies as st
+    from . import c06
+    idx, seed, n = job
+    sh = Shard()
+
+    def prop(args):
+        h, order = args
+        probs = run_hier(h, order, sh)
+        sh.case((core.digest(json.dumps(h, sort_keys=True)), tuple(order)), len(order) >= 3, {'entry': 'hierarchy-history', 'classes': len(h['classes']), 'requests': len(order)})
+        sh.count('hierarchy-histories')
+        for sig, detail in probs:
+            if sig not in sh.excluded:
+                raise Found(sig + ':project-history', {'entry': 'hierarchy-history', 'hierarchy': h, 'order': list(order)}, detail)
+    strat = st.tuples(c06.hierarchy_strategy(), st.lists(st.integers(0, 40), min_size=1, max_size=14))
+    core.hyp_search(sh, prop, strat, seed, n, shrink=False, max_rounds=3)
+    return sh.result()
+
+
 def w_programs(job):
     from hypothesis import strategies as st
     from vlib.gen.programs import programs
@@ -669,12 +743,15 @@ def run(run):
                        for i, sh_ in enumerate(corpus.shards(files, 16))])
     run.pmap(w_cyclic, [(i, core.derive_seed(run.seed, 'c08c', i), run.pick(40, 600)) for i in range(4)])
     run.pmap(w_programs, [(i, core.derive_seed(run.seed, 'c08p', i), run.pick(30, 600)) for i in range(12)])
+    run.pmap(w_hier, [(i, core.derive_seed(run.seed, 'c08h', i), run.pick(40, 800)) for i in range(8)])
     run.extra['timeouts_inconclusive'] = sum(v for k, v in run.counters.items() if k.endswith(':timeout'))
     if not run.quick:
         run_atheris(run, int(os.environ.get('VERIF_FUZZ_SECONDS', '300')))
 
 
 def replay(case):
+    if case.get('entry') == 'hierarchy-history':
+        return [{'signature': sig + ':project-history', 'case': case, 'detail': detail} for sig, detail in run_hier(case['hierarchy'], case['order'])]
     project = suppview.project()
     fn = case.get('filename') or suppview.filename_for(False)
     if 'filename' in case and case['filename'] is None:
